@@ -204,3 +204,18 @@ def run(ctx):
         "samples": accA.samples[:3] + accB.samples[:2],
         "exhaustive": True,
     }
+
+
+def replay(ctx, data):
+    """Re-evaluate the recorded input (integer / pattern domains); True if the signature is gone."""
+    f3, fl = _fns()
+    inp = data["first"]["input"]
+    acc = par.Acc()
+    vs = _u5.SmallestViolations(acc)
+    if inp["fn"] == "_three_way":
+        check_three_way(f3, inp["base"], inp["other"], inp["this"], acc, vs, inp["domain"])
+    else:
+        check_lca(f3, fl, inp["base"], tuple(inp["lcas"]), inp["other"], inp["this"],
+                  inp["allow_overriding_lca"], acc, vs, inp["domain"])
+    vs.flush()
+    return data["signature"] not in [s for s, _ in acc.violations]
